@@ -43,21 +43,22 @@ func (s *sink) Write(p []byte) (int, error) {
 }
 
 type termCase struct {
-	Shape       vlib.Shape
-	Ending      string // max-duration | own-duration | limit | cancel-before | cancel-during-setup | cancel-mid-run | setup-fail | setup-panic
-	Blocking    string // instant | sleep | blocked
-	SleepUs     int
-	Blocked     int // number of iterations that block until after Do returned
-	WaitMs      int // completion timeout
-	CancelMs    int
-	TickCoinc   bool // the run ends within a few ms of the 1 s progress tick
-	StragglerMs int  // iteration 1 takes this long (0 = like the others)
-	ViaCLI      bool // through f1.New().Add().ExecuteWithArgs (completion timeout is then the CLI's 10 s)
+	Shape         vlib.Shape
+	Ending        string // max-duration | own-duration | limit | cancel-before | cancel-during-setup | cancel-mid-run | setup-fail | setup-panic
+	Blocking      string // instant | sleep | blocked
+	SleepUs       int
+	Blocked       int // number of iterations that block until after Do returned
+	WaitMs        int // completion timeout
+	CancelMs      int
+	TickCoinc     bool // the run ends within a few ms of the 1 s progress tick
+	SetupFailsToo bool // cancel-during-setup: the setup also fails (after the cancellation)
+	StragglerMs   int  // iteration 1 takes this long (0 = like the others)
+	ViaCLI        bool // through f1.New().Add().ExecuteWithArgs (completion timeout is then the CLI's 10 s)
 }
 
 func (c termCase) desc() string {
 	return fmt.Sprintf("%s ending=%s blocking=%s sleep=%dus blocked=%d wait=%dms cancel=%dms tickCoincident=%v viaCLI=%v",
-		c.Shape.Desc, c.Ending, c.Blocking, c.SleepUs, c.Blocked, c.WaitMs, c.CancelMs, c.TickCoinc, c.ViaCLI) + fmt.Sprintf(" straggler=%dms", c.StragglerMs)
+		c.Shape.Desc, c.Ending, c.Blocking, c.SleepUs, c.Blocked, c.WaitMs, c.CancelMs, c.TickCoinc, c.ViaCLI) + fmt.Sprintf(" straggler=%dms setupFailsToo=%v", c.StragglerMs, c.SetupFailsToo)
 }
 
 func genCase(t *rapid.T) termCase {
@@ -127,6 +128,9 @@ func genCase(t *rapid.T) termCase {
 	if c.Ending == "cancel-mid-run" {
 		c.CancelMs = rapid.IntRange(1, 150).Draw(t, "cancelMs")
 	}
+	if c.Ending == "cancel-during-setup" {
+		c.SetupFailsToo = rapid.Bool().Draw(t, "setupFailsToo")
+	}
 	if c.Ending == "max-duration-then-cancel" {
 		c.Blocking, c.SleepUs, c.Blocked, c.WaitMs = "sleep", 150000, 0, 20000
 		c.CancelMs = int(c.Shape.MaxDuration.Milliseconds()) + rapid.IntRange(10, 80).Draw(t, "cancelAfterEndMs")
@@ -178,6 +182,9 @@ func execute(c termCase, dir string) (observation, error) {
 		switch c.Ending {
 		case "cancel-during-setup":
 			time.Sleep(30 * time.Millisecond)
+			if c.SetupFailsToo {
+				st.FailNow() // the caller's cancellation does not make a failed setup pass
+			}
 		case "setup-fail":
 			st.FailNow()
 		case "setup-panic":
@@ -306,6 +313,14 @@ func judge(c termCase, obs observation) string {
 		}
 		if obs.leak != nil {
 			return fmt.Sprintf("goroutines of the run remain after Do returned: %v", obs.leak)
+		}
+	}
+	if c.SetupFailsToo {
+		if obs.entries != 0 {
+			return fmt.Sprintf("setup failed (after the caller had cancelled) yet %d iterations ran", obs.entries)
+		}
+		if !obs.resFailed {
+			return "setup failed (after the caller had cancelled) but the run is not reported failed"
 		}
 	}
 	switch c.Ending {
